@@ -27,7 +27,8 @@ def run_batch(args) -> dict:
     codec_driver.limit_memory(6.0)
     pool = _pool(spec)
     uniq: dict[str, dict] = {}
-    stats = {"runs": 0, "cases": 0, "injected": 0, "abandoned": 0, "errors": [], "points": 0, "switches": 0}
+    stats = {"runs": 0, "cases": 0, "injected": 0, "abandoned": 0, "errors": [], "points": 0, "switches": 0,
+             "stuck": []}
     for it in items:
         def run_item(it=it):
             warm: list = []
@@ -46,6 +47,11 @@ def run_batch(args) -> dict:
         stats["points"] += res["points"]
         stats["switches"] += res["switches"]
         stats["abandoned"] += int(res["abandoned"])
+        if res.get("stuck"):
+            # a thread never came back (60 s): once more in a fresh child before it is called a deadlock
+            again = sched.in_child(run_item, timeout=150.0)
+            if again.get("stuck") or again.get("child_error") == "timeout":
+                stats["stuck"].append({"item": it["id"], "programs": it["programs"], "runs": it.get("runs", [])[:8]})
         for c in res["cases"]:
             if "note" in c:
                 stats["injected"] += 1
@@ -211,7 +217,7 @@ def make_items(chk: Check, nops: list, npool: int, thorough: bool, hists: list, 
                 prog.append((kind, ci, vi, rng.randrange(1, n + 1) if n else 0))
             else:
                 prog.append((kind, ci, vi, 0))
-        for ci in sorted({p[1] for p in prog if p[0] != "clear"}):
+        for ci in sorted({p[1] for p in prog if p[0] not in ("clear", "buildbad")}):
             prog += [("w", ci, 0, 0), ("r", ci, 1, 0)]
         items.append({"id": f"hist{i}", "programs": [prog]})
     # (c) behaviours of the Registry model, sequentially and with their thread interleaving
@@ -235,6 +241,24 @@ def make_items(chk: Check, nops: list, npool: int, thorough: bool, hists: list, 
     for a, b in ((tw[0], tw[1]), (tw[1], tw[0])):
         items.append({"id": f"twin{a}_{b}", "programs": [[("w", a, 0, 0), ("w", b, 0, 0), ("r", a, 1, 0), ("r", b, 1, 0),
                                                           ("w", a, 1, 0), ("w", b, 1, 0)]]})
+    # (d+) a derived entity class and its base, in both creation orders, sequentially and from cold caches
+    # with a swept preemption
+    bi, di = npool - 4, npool - 3
+    for a, b in ((bi, di), (di, bi)):
+        items.append({"id": f"inh{a}_{b}", "programs": [[("w", a, 0, 0), ("w", b, 0, 0), ("r", a, 1, 0), ("r", b, 1, 0),
+                                                         ("w", b, 1, 0), ("w", a, 1, 0)]]})
+        for k in range(1, 400, 9 if not thorough else 2):
+            items.append({"id": f"inhc{a}_{b}_{k}", "programs": [[("w", a, 0, 0), ("r", a, 1, 0)], [("w", b, 1, 0), ("r", b, 0, 0)]],
+                          "runs": [k, 10**9]})
+    # (d++) deriving codecs for an inconsistent class fails; the failure leaves nothing behind - another
+    # thread (or the same one) can still derive and use codecs afterwards
+    for ci in (0, 5, 9, di):
+        items.append({"id": f"bb_seq{ci}", "programs": [[("buildbad",), ("w", ci, 0, 0), ("r", ci, 1, 0)]]})
+        items.append({"id": f"bb_then{ci}", "programs": [[("buildbad",)], [("w", ci, 0, 0), ("r", ci, 1, 0)]],
+                      "runs": [10**9]})
+        for k in range(1, 200, 13 if not thorough else 3):
+            items.append({"id": f"bb_par{ci}_{k}", "programs": [[("buildbad",), ("w", ci, 1, 0)], [("w", ci, 0, 0), ("r", ci, 1, 0)]],
+                          "runs": [k, 10**9]})
     # (d'') cold-start sweep on a class whose tagged struct has no explicit default (both threads need the
     # implicit-default machinery at once)
     for k in range(1, 700 if thorough else 500, 1 if thorough else 4):
@@ -318,12 +342,17 @@ def history_core(chk: Check, thorough: bool, hists: list, mini) -> None:
     batches = [(spec, items[i::K]) for i in range(K)]
     results = pmap(run_batch, batches)
     uniq: dict[str, dict] = {}
-    stats = {"runs": 0, "cases": 0, "injected": 0, "abandoned": 0, "errors": [], "points": 0, "switches": 0}
+    stats = {"runs": 0, "cases": 0, "injected": 0, "abandoned": 0, "errors": [], "points": 0, "switches": 0,
+             "stuck": []}
     for r in results:
         for c in r["uniq"]:
             uniq.setdefault(c["id"], c)
         for k, v in r["stats"].items():
             stats[k] = stats[k] + v if not isinstance(v, list) else stats[k] + v
+    for st in stats["stuck"][:5]:
+        chk.violation("call_never_returns", f"run {st['item']}: a thread did not finish within 60 s, twice (a lock that "
+                      f"is never released, or a loop): programs={json.dumps(st['programs'])[:300]} runs={st['runs']}",
+                      {"kind": "history", "first_seen": st})
     if len(stats["errors"]) > max(3, stats["runs"] // 50):
         raise Machinery(f"too many runs without result: {stats['errors'][:5]}")
     cases = list(uniq.values())
